@@ -927,11 +927,46 @@ func runTypeValue(c *Ctx, only *replay) {
 			}
 		}
 	}
+	var lines []string
+	for _, j := range jobs {
+		lines = append(lines, "(C11 typevalue "+HexAtom(mustUnhex(j.Data))+")")
+	}
+	ans := c.ModelBigStack().Batch(lines)
 	outs := runJobs(jobs, nWorkers, jobTimeout(c))
 	for i, j := range jobs {
 		o := &outs[i]
 		c.Eval(fmt.Sprintf("typevalue/%x", hashOf(j)))
-		judge(c, "typevalue", j, o, "", 0, tvKeyHint(o))
+		c.Res.ModelCases++
+		rp := replay{Sub: "typevalue", Job: j}
+		predicted := ""
+		if strings.HasPrefix(ans[i], "panic:") {
+			predicted = strings.TrimPrefix(ans[i], "panic:")
+		}
+		c.Stat("typevalue:model:" + strings.SplitN(strings.Trim(ans[i], "()"), " ", 2)[0])
+		survived := judge(c, "typevalue", j, o, predicted, 0, "")
+		switch {
+		case predicted != "":
+			if survived {
+				c.Fail("correspondence", "C11:typevalue:class:model-panic-real-"+o.Class, fmt.Sprintf("model predicts a panic at %s, LookupByValue returned %s", predicted, o.Class), rp)
+			}
+		case ans[i] == "fail":
+			if survived && o.Class != "error" {
+				c.Fail("correspondence", "C11:typevalue:class:model-fail-real-"+o.Class, "model rejects the type value, LookupByValue accepted it as "+o.After, rp)
+			}
+		case strings.HasPrefix(ans[i], "(ok "):
+			want := strings.TrimSuffix(strings.TrimPrefix(ans[i], "(ok "), ")")
+			if !survived {
+				if o.Status == "ok" && o.Class == "panic" || o.Status != "ok" {
+					c.Fail("correspondence", "C11:typevalue:class:model-ok-real-panic", "model decodes the type value, the real decoder did not survive", rp)
+				}
+			} else if o.Class != "values" {
+				c.Fail("correspondence", "C11:typevalue:class:model-ok-real-error", "model decodes the type value to "+want+", LookupByValue rejected it: "+firstLine(o.Err), rp)
+			} else if o.After != want {
+				c.Fail("correspondence", "C11:typevalue:type", "decoded types differ: model "+want+" real "+o.After, rp)
+			}
+		default:
+			c.Fail("correspondence", "C11:typevalue:model-error", "model answered "+ans[i], rp)
+		}
 	}
 }
 
@@ -1030,8 +1065,70 @@ func vngKey(o *outcome) string {
 	return ""
 }
 
+// runVngHdr: vng.Header.Deserialize vs the model on a grid of headers around every check.
+func runVngHdr(c *Ctx) {
+	r := c.Rng
+	base := vng.Header{Version: vng.Version, MetaSize: 100, DataSize: 1000}.Serialize()
+	var hs [][]byte
+	hs = append(hs, base, base[:23], append(append([]byte{}, base...), 0), nil)
+	for i := 0; i < 4; i++ {
+		for _, v := range []byte{0, 1, 'V', 'N', 'G', 0xff} {
+			d := append([]byte{}, base...)
+			d[i] = v
+			hs = append(hs, d)
+		}
+	}
+	vals := []uint64{0, 1, 3, 4, 5, 1 << 8, vng.MaxMetaSize - 1, vng.MaxMetaSize, vng.MaxMetaSize + 1, vng.MaxDataSize - 1, vng.MaxDataSize, vng.MaxDataSize + 1, 1 << 32, 1 << 62, 1 << 63, 1<<64 - 1}
+	for _, a := range vals {
+		for _, b := range vals {
+			for _, ver := range []uint32{vng.Version, vng.Version + 1, 0} {
+				if ver != vng.Version && r.Intn(4) != 0 {
+					continue
+				}
+				hs = append(hs, vng.Header{Version: ver, MetaSize: a, DataSize: b}.Serialize())
+			}
+		}
+	}
+	for i := 0; i < c.N(100, 3000); i++ {
+		d := append([]byte{}, base...)
+		for k := 0; k < 1+r.Intn(3); k++ {
+			d[r.Intn(len(d))] = byte(r.Intn(256))
+		}
+		hs = append(hs, d)
+	}
+	var jobs []*job
+	var lines []string
+	for i, h := range hs {
+		jobs = append(jobs, &job{ID: i, Kind: "vnghdr", Data: hex.EncodeToString(h)})
+		lines = append(lines, "(C11 vnghdr "+HexAtom(h)+")")
+	}
+	ans := c.ModelBigStack().Batch(lines)
+	outs := runJobs(jobs, nWorkers, jobTimeout(c))
+	for i, j := range jobs {
+		o := &outs[i]
+		c.Eval(fmt.Sprintf("vnghdr/%x", hashOf(j)))
+		c.Res.ModelCases++
+		if !judge(c, "vnghdr", j, o, "", 0, "") {
+			continue
+		}
+		want := "err"
+		if o.Class == "values" {
+			var m, d uint64
+			fmt.Sscanf(o.After, "meta=%d data=%d", &m, &d)
+			want = fmt.Sprintf("(ok %d %d)", m, d)
+		}
+		c.Stat("vnghdr:" + strings.SplitN(strings.Trim(want, "()"), " ", 2)[0])
+		if ans[i] != want {
+			c.Fail("correspondence", "C11:vnghdr:disagree", fmt.Sprintf("Header.Deserialize: real %s, model %s", want, ans[i]), replay{Sub: "vnghdr", Job: j})
+		}
+	}
+}
+
 func runVNG(c *Ctx, only *replay) {
 	r := c.Rng
+	if only == nil {
+		runVngHdr(c)
+	}
 	var jobs []*job
 	var hows []string
 	if only != nil {
@@ -1347,10 +1444,9 @@ func runWitness(c *Ctx) {
 		{ID: 2, Kind: "typevalue", Data: hex.EncodeToString(append(append([]byte{zed.TypeValueNameDef}, big...), zed.IDInt64))},
 		{ID: 3, Kind: "typevalue", Data: hex.EncodeToString(append([]byte{zed.TypeValueRecord}, big...))},
 	}
-	for i, o := range runJobs(tvs, 2, jobTimeout(c)) {
+	for i := range tvs {
 		c.Eval(fmt.Sprintf("witness/typevalue/%d", i))
-		o := o
-		judge(c, "typevalue", tvs[i], &o, "", 0, tvKeyHint(&o))
+		runTypeValue(c, &replay{Sub: "typevalue", Job: tvs[i]})
 	}
 	// 5. Validate does not look inside set elements
 	{
